@@ -7,7 +7,7 @@ const poly = "github.com/TimothyStiles/poly/"
 func init() {
 	m := time.Minute
 	specs["C04"] = spec{Race: true}
-	specs["C12"] = spec{BudgetQuick: 5 * m, BudgetThorough: 30 * m}
+	specs["C12"] = spec{Race: true, BudgetQuick: 5 * m, BudgetThorough: 30 * m}
 	specs["C13"] = spec{Race: true, Instr: map[string]string{poly + "io/fasta": "sched"}, Procs: 1, BudgetQuick: 2 * m, BudgetThorough: 15 * m}
 	specs["C20"] = spec{Race: true, Instr: map[string]string{poly + "io/uniprot": "sched"}, Procs: 1, BudgetQuick: 3 * m, BudgetThorough: 20 * m}
 	specs["C08"] = spec{Race: true, Instr: map[string]string{poly + "transform/codon": "maprange,yield,reset,digest"}, Procs: 1, BudgetQuick: 3 * m, BudgetThorough: 25 * m}
